@@ -530,7 +530,7 @@ func c06Spec(c *fw.Ctx, i int) gen.EsSpec {
 		a = "aac"
 	}
 	sp := gen.EsSpec{VCodec: v, ACodec: a, NVideo: 60 + r.Intn(80), GopLen: 6 + r.Intn(12), AudioPer: 1 + r.Intn(3), MaxNals: 1 + r.Intn(6), BigNals: r.Intn(3) == 0,
-		InBandPS: r.Intn(2) == 0, AudSei: r.Intn(2) == 0, BFrames: r.Intn(2) == 0, TsStart: []uint32{0, 1000, 0xFFFFFF - 1000, 0x7fffff00}[r.Intn(4)], TsJump: r.Intn(4) == 0, AudioGap: r.Intn(4) == 0}
+		InBandPS: r.Intn(2) == 0, AudSei: r.Intn(2) == 0, BFrames: r.Intn(2) == 0, TsStart: []uint32{0, 1000, 0xFFFFFF - 1000, 0x7fffff00}[r.Intn(4)], TsJump: r.Intn(4) == 0, AudioGap: r.Intn(4) == 0, LonePS: r.Intn(3) == 0}
 	if a == "aac" {
 		sp.AacIdx = r.Intn(13)
 		sp.AacChans = 1 + r.Intn(7)
